@@ -326,3 +326,42 @@ Definition scan_row (env : tenv) (outputs : list locator) (cols : list str) (cel
       | (m1, SOk pend) => (Some (fold_left apply_pending pend m1), None)
       end
   end.
+
+(* ------------------------------------------------ Query.GetAll (values) -- *)
+
+(* the element type of one destination slice *)
+Inductive selem :=
+| SEStruct (pt t : tid)      (* []T: scanned into reflect.New(T), appended by value; pt = *T *)
+| SEPtrStruct (pt t : tid)   (* []*T: scanned into reflect.New(T), the pointer is appended *)
+| SEMap (mt : tid).          (* []M: scanned into reflect.MakeMap(M) *)
+
+(* the fresh output argument GetAll builds for a row *)
+Definition fresh_arg (env : tenv) (e : selem) : arg :=
+  match e with
+  | SEStruct pt t | SEPtrStruct pt t => AVal pt (VPtr (zero_val scan_fuel env t))
+  | SEMap mt => AVal mt (VMap false [])
+  end.
+
+(* what is appended to the slice for a row: the scanned value as the slice holds it *)
+Definition appended (e : selem) (v : val) : val :=
+  match e with
+  | SEStruct _ _ => v
+  | SEPtrStruct _ _ => VPtr v
+  | SEMap _ => v
+  end.
+
+(* the loop of GetAll over the rows: one fresh element per destination and row;
+   the first error ends it and nothing is appended (all or nothing) *)
+Fixpoint getall_rows (env : tenv) (outputs : list locator) (cols : list str) (elems : list selem)
+  (rows : list (list cell)) (acc : list (list val)) : sres (list (list val)) :=
+  match rows with
+  | [] => SOk acc
+  | cells :: rest =>
+      match scan_row env outputs cols cells (map (fresh_arg env) elems) with
+      | (Some m, None) =>
+          let vals := map (fun '(e, (_, v)) => appended e v) (combine elems m) in
+          getall_rows env outputs cols elems rest (acc ++ [vals])
+      | (_, Some e) => SErr e
+      | (None, None) => SErr (SBind EInternal)
+      end
+  end.
